@@ -669,9 +669,12 @@ class World:
         c = self.cells_of(op["c"])
         args = op["args"]
         sp = op.get("sp", "pos")
-        if sp == "kw":
+        if sp in ("kw", "kwr"):
             names = c.parameters
-            v = c(**{names[i]: a for i, a in enumerate(args)})
+            order = list(range(len(args)))
+            if sp == "kwr":
+                order.reverse()
+            v = c(**{names[i]: args[i] for i in order})
         elif sp == "sub" and len(args) >= 1:
             v = c[tuple(args)] if len(args) > 1 else c[args[0]]
         elif sp == "value" and len(args) == 0:
